@@ -38,8 +38,29 @@ class Ctx:
 
     # -- recording
     def check(self, cond: bool, construct: str, detail: str = "", rule: str | None = None) -> bool:
+        if not cond:
+            why = self._novel(construct, rule or self.current_rule)
+            if why:
+                # the function was rewritten with constructs its confirmed version does not use: what the rule does not find there is not decided
+                msg = f"{rule or self.current_rule}: {construct}: not decided - {why}"
+                if msg not in self.errors:
+                    self.errors.append(msg)
+                return False
         self.obligations.append(Obligation(rule or self.current_rule, construct, bool(cond), detail))
         return bool(cond)
+
+    def _novel(self, construct: str, rule: str) -> str | None:
+        novel = getattr(self.repo, "novel_syntax", None)
+        if not novel or rule.split(".")[-1] in ("RM", "RU", "RB"):
+            return None  # the shared effect / def-use rules report facts they extracted, not patterns they missed
+        import re as _re
+
+        words = set(_re.findall(r"[A-Za-z_][A-Za-z_0-9]*(?:\.[A-Za-z_][A-Za-z_0-9]*)?", construct))
+        for q, kinds in novel.items():
+            bare = q.split(".")[-1]
+            if q in words or (bare in words and not bare.startswith("__")) or any(w.endswith("." + bare) for w in words):
+                return f"`{q}` now uses {', '.join(sorted(kinds))}, which its confirmed version does not; the rule's extractor does not model that spelling"
+        return None
 
     def ok(self, construct: str, detail: str = "", rule: str | None = None) -> None:
         self.check(True, construct, detail, rule)
